@@ -307,10 +307,11 @@ def round_binary(lpsol, ints, c, A, b, minimize, eps, fr):
             for j_off in ones:
                 net = gain_on + sign * c[j_off]
                 if net > best_gain:
+                    old_on, old_off = sol[j_on], sol[j_off]
                     sol[j_on], sol[j_off] = F(1), F(0)
                     if is_feasible(sol, A, b, ints, eps, fr):
                         best_gain, best_swap = net, (j_on, j_off)
-                    sol[j_on], sol[j_off] = F(0), F(1)
+                    sol[j_on], sol[j_off] = old_on, old_off
         if best_swap:
             sol[best_swap[0]], sol[best_swap[1]] = F(1), F(0)
             improved = True
